@@ -76,6 +76,16 @@ impl Property for C10 {
                            match t.pick(6) { 0 => format!("{a} > {}", pick_seg(t, 10).text), 1 => format!("{a} > * / _ #"), 2 => format!("{a} > [+long]"), 3 => format!("{a} > [{}{}]", if t.chance(1, 2) { "+" } else { "-" }, FEATS[t.pick(26)].0), 4 => format!("% > [tone:{}]", [5, 51, 214][t.pick(3)]), _ => format!("{a} > {a}$ / _ C") } }
                 });
             }
+            // notation that lives in the parsed word only: a word typed with `;` or with Americanist letters, and a rule that creates a segment
+            // which has an Americanist spelling — printing and re-reading the intermediate word must not change what the last stage prints
+            let mut word = word;
+            if t.chance(1, 6) {
+                let a = if segs.is_empty() { "a".to_string() } else { segs[t.pick(segs.len())].0.clone() };
+                let x = ["ɬ", "ɲ", "t͡s", "t͡ɬ", "d͡ɮ"][t.pick(5)];
+                let at = t.pick(rules.len() + 1);
+                rules.insert(at, format!("{a} > {x}"));
+                if !word.contains(['*', '%']) { word = match t.pick(3) { 0 => format!("ka;{word}"), 1 => format!("{}a.{word}", ["ł", "ñ", "¢", "ƛ", "λ"][t.pick(5)]), _ => word }; }
+            }
             // a regrouping: cut points and empty groups
             let mut regroup: Vec<Vec<String>> = vec![vec![]];
             for r in &rules { if t.chance(1, 3) { regroup.push(vec![]); if t.chance(1, 4) { regroup.push(vec![]); } } regroup.last_mut().unwrap().push(r.clone()); }
@@ -109,7 +119,13 @@ impl Property for C10 {
             if staged_key != key(&full) {
                 // when the first stage fails the whole run fails too (checked by the keys); otherwise diagnose the intermediate word structurally
                 let mut sig = "staged run differs from running all at once".to_string();
-                if let Ok(mid) = &first {
+                // the two results are the same words in two notations (Americanist letters vs IPA)?
+                let plain = |v: &str| v.replace('ł', "ɬ").replace('ñ', "ɲ").replace('¢', "t͡s").replace('ƛ', "t͡ɬ").replace('λ', "d͡ɮ");
+                if let (Ok(a), Ok(b)) = (&full, &staged) { if a.iter().map(|x| plain(x)).collect::<Vec<_>>() == b.iter().map(|x| plain(x)).collect::<Vec<_>>() {
+                    sig = if words.iter().any(|w| w.contains(['ł', 'ñ', '¢', 'ƛ', 'λ'])) { "staged run differs only in notation: the input word is written with Americanist letters".into() }
+                          else { "staged run differs only in notation although the input word is plain IPA".into() };
+                } }
+                if let (true, Ok(mid)) = (sig.starts_with("staged run differs from"), &first) {
                     for (w, m) in words.iter().zip(mid) { for (wp, _) in w.split(' ').zip(m.split(' ')) {
                         if let Ok(Ok(pw)) = api::parse_word(wp) { if let Ok(Ok(states)) = api::apply_groups(&to_groups(&units[..k]), &pw) { if let Some(st) = states.last() {
                             if let Some(v) = invariant_violation(st) {
